@@ -698,7 +698,8 @@ func c18ParkedListeners() int {
 		if i := strings.IndexByte(g, '\n'); i >= 0 {
 			head = g[:i]
 		}
-		if strings.Contains(head, "[chan send") {
+		// blocked (not runnable): in the reply send, or in a select none of whose cases is ready
+		if strings.Contains(head, "[chan send") || strings.Contains(head, "[select") {
 			parked++
 		}
 	}
